@@ -3,6 +3,7 @@ package interpreter
 import (
 	"fmt"
 	"math"
+	"reflect"
 	"strconv"
 
 	"github.com/ah-naf/borno/ast"
@@ -850,8 +851,90 @@ func isTruthy(value interface{}) bool {
 	return true // Everything else is considered true
 }
 
+// isEqual compares two runtime values: numbers by numeric value whatever their
+// host representation, strings by content, arrays, objects and functions by
+// identity; values of different kinds are never equal.
 func isEqual(a, b interface{}) bool {
-	return a == b
+	if a == nil || b == nil {
+		return a == nil && b == nil
+	}
+	if isNumber(a) || isNumber(b) {
+		return isNumber(a) && isNumber(b) && numbersEqual(a, b)
+	}
+	if as, ok := asString(a); ok {
+		bs, ok := asString(b)
+		return ok && as == bs
+	}
+	if _, ok := asString(b); ok {
+		return false
+	}
+	va, vb := reflect.ValueOf(a), reflect.ValueOf(b)
+	if va.Type() != vb.Type() {
+		return false
+	}
+	switch va.Kind() {
+	case reflect.Slice:
+		return va.Len() == vb.Len() && va.Pointer() == vb.Pointer()
+	case reflect.Map:
+		return va.Pointer() == vb.Pointer()
+	}
+	if va.Type().Comparable() {
+		return a == b
+	}
+	return false
+}
+
+func isNumber(v interface{}) bool {
+	switch v.(type) {
+	case float64, int64, int:
+		return true
+	}
+	return false
+}
+
+func asString(v interface{}) (string, bool) {
+	switch s := v.(type) {
+	case string:
+		return s, true
+	case []rune:
+		return string(s), true
+	}
+	return "", false
+}
+
+// numbersEqual compares two numbers exactly (an int64 and a float64 are equal
+// only if they denote the same integer).
+func numbersEqual(a, b interface{}) bool {
+	if i, ok := a.(int); ok {
+		a = int64(i)
+	}
+	if i, ok := b.(int); ok {
+		b = int64(i)
+	}
+	switch x := a.(type) {
+	case int64:
+		switch y := b.(type) {
+		case int64:
+			return x == y
+		case float64:
+			return intEqualsFloat(x, y)
+		}
+	case float64:
+		switch y := b.(type) {
+		case int64:
+			return intEqualsFloat(y, x)
+		case float64:
+			return x == y
+		}
+	}
+	return false
+}
+
+func intEqualsFloat(i int64, f float64) bool {
+	if f != math.Trunc(f) || f < -9223372036854775808.0 || f >= 9223372036854775808.0 {
+		return false
+	}
+	return int64(f) == i
 }
 
 func getLineNumber(expr ast.Expr) int {
